@@ -11,10 +11,10 @@ closest package above that file — the only one plz lets use it), or its defini
 * `C24_superset`: with an unlimited level every affected target is reported — for every graph, every set of files,
   every package layout.  It rests on the ownership lemma `C24_ownership` (the closest-package walk finds the package
   of every consumer) and on `findRevdeps_complete_unlimited` (Lemmas/QueryRevC.lean).
-* The theorem is about files consumed as SOURCES or DATA and about definition changes that `diffGraphs` detects.
-  Two known findings (witnesses replayed from corpus/C24/known-*.ops): a file used as a TOOL is not a "source" for
-  `HasSource`, and `diffGraphs` compares the unframed rule hash of C08.  Both are outside the model's `inputs` /
-  `changed0` and are decided by the harness's direct oracle.
+* "Consumes" covers sources, data and (since the repair of `changes-file-tool-not-a-source`) local file tools.
+  One known finding remains: `diffGraphs` compares the unframed rule hash of C08, so a definition change whose
+  attribute strings concatenate to the same bytes is not in `changed0`; that is outside this model (`changed0` is an
+  input) and is decided by the harness's direct oracle.
 -/
 namespace PlzVerif.Props.C24
 open PlzVerif.Query PlzVerif.Changes
@@ -39,7 +39,10 @@ def FactsOK : Bool :=
     ["for _, v01 := range append(T.AllSources(), T.AllData()...) { if v02 := v01.String(); v02 == SOURCE || strings.HasPrefix(SOURCE, v02+\"/\") { return true } }",
      "return false"] &&
   PlzVerif.Generated.C24.hasAbsoluteSource ==
-    ["return T.HasSource(strings.TrimPrefix(SOURCE, T.Label.PackageName+\"/\"))"] &&
+    ["SOURCE = strings.TrimPrefix(SOURCE, T.Label.PackageName+\"/\")",
+     "if T.HasSource(SOURCE) { return true }",
+     "for _, v01 := range T.AllTools() { if v02, v03 := v01.(FileLabel); v03 { if v04 := v02.String(); v04 == SOURCE || strings.HasPrefix(SOURCE, v04+\"/\") { return true } } }",
+     "return false"] &&
   PlzVerif.Generated.C24.diffGraphs ==
     ["F1 := !bytes.Equal(BEFORE.Hashes.Config, AFTER.Hashes.Config)",
      "F2 := map[*core.BuildTarget]struct{}{}",
@@ -93,27 +96,13 @@ theorem C24_level0 (C : CGraph) (files : List Path) (changed0 : List Nat) (t : N
   unfold reported changedTargets at h
   exact List.mem_append.mp h
 
-/-! ## the property at full strength: files consumed as tools count too -/
-
-/-- `t` consumes `f` as a source, as data, or as a local file tool -/
-def ConsumesAny (C : CGraph) (t : Nat) (f : Path) : Prop :=
-  Consumes C t f ∨ ∃ s ∈ C.tools t, s ≠ [] ∧ ∃ rest, f = C.pkgOf t ++ s ++ rest
-
-/-- The property as stated (file part): every target that consumes a changed file is reported. -/
-def ConsumersReported : Prop := ∀ (C : CGraph) (files : List Path) (level : Option Limit) (t : Nat) (f : Path),
-  f ∈ files → t ∈ C.G.nodes → ConsumesAny C t f → Owner C t f → t ∈ reported C files [] level
-
-/-- witness (known finding `changes-file-tool-not-a-source`): `//a:t` runs the local script `a/tool.sh`; the script
-changes; nothing is reported, because `HasSource` looks at sources and data only. -/
+/-- the shape of the repaired finding `changes-file-tool-not-a-source` (fixed): `//a:t` runs the local script `a/tool.sh`;
+the script changes; `//a:t` is reported. -/
 def gTool : Graph := { nodes := [0], adj := fun _ => [], pl := id, hid := fun _ => false }
 def cTool : CGraph := { G := gTool, pkgs := [["a"]], pkgOf := fun _ => ["a"], inputs := fun _ => [], tools := fun _ => [["tool.sh"]] }
 
-theorem C24_witness_file_tool : ¬ ConsumersReported := by
-  intro h
-  have := h cTool [["a", "tool.sh"]] (some none) 0 ["a", "tool.sh"] (by simp) (by decide)
-    (Or.inr ⟨["tool.sh"], by decide, by decide, [], rfl⟩) ⟨by decide, by decide⟩
-  revert this
-  decide
+example : reported cTool [["a", "tool.sh"]] [] (some none) = [0] := by decide
+example : Consumes cTool 0 ["a", "tool.sh"] := ⟨["tool.sh"], by decide, by decide, [], rfl⟩
 
 -- non-vacuity: package `a` with a sub-package `a/b`; target 0 (in `a`) has the directory `dir` as a source, target 1
 -- (in `a/b`) has `x.go`, target 2 depends on 0, target 3 on 2.
